@@ -89,6 +89,12 @@ func Inline(files Files, name string, depth int) (Inlined, error) {
 	for _, l := range body {
 		out.Entries = append(out.Entries, ExpandDefs(l, defs))
 	}
+	for i := range out.Prefixes {
+		out.Prefixes[i] = ExpandDefs(out.Prefixes[i], defs)
+	}
+	for i := range out.Suffixes {
+		out.Suffixes[i] = ExpandDefs(out.Suffixes[i], defs)
+	}
 	return out, nil
 }
 
